@@ -77,7 +77,7 @@ class FuncTrace:
 
 
 def symbolic_job(params, body, replay, *, timeout_ms=120000, budget_s=1500, max_paths=400000,
-                 seed=0, validate=2, expect_reachable=True):
+                 seed=0, validate=2, expect_reachable=True, in_known_class=None):
     """Explore ``body`` symbolically; replay counterexamples / sampled path models with
     ``replay(params, inputs) -> (holds: bool, detail: str)`` on the real code (concrete)."""
     from . import core
@@ -141,7 +141,8 @@ def symbolic_job(params, body, replay, *, timeout_ms=120000, budget_s=1500, max_
                 out['message'] += f' known finding {r["finding"]} model did not reproduce;'
         # translation validation: models of completed (passing) paths must pass concretely
         if out['status'] == 'ok' and replay is not None:
-            for inp in c.path_models[:validate]:
+            models = [m for m in c.path_models if not (in_known_class and in_known_class(m))]
+            for inp in models[:validate]:
                 try:
                     holds, detail = replay(params, inp)
                 except Exception as e:
